@@ -178,6 +178,9 @@ def seeded(case):
       else:
         seam_missed.append(1)
       # unpatched: repeated iteration and a separately built view agree
+      it0 = iter(view)
+      next(it0, None)  # an abandoned iteration of the same view must not influence the next ones
+      del it0
       view2 = ds.shuffle_repeat_batch(batch_size=b, num_epochs=ep, num_steps=st, drop_remainder=drop, seed=seed,
                                       skip_shuffle=skip)
       for nm, v in (('second iteration', view), ('separately built view with the same seed', view2)):
@@ -219,6 +222,20 @@ def interleave(case):
   got2 = [np.asarray(c['i']).tolist() for _, c in z if c is not None]
   require(got1 == alone1 and got2 == alone2, 'two seeded views iterated in lock-step do not reproduce their stand-alone '
           'batches (shared generator state)', [alone1, alone2], [got1, got2])
+  # same seed: two iterators of ONE view, and two clients batched with the same seeded hparams
+  v = ds1.shuffle_repeat_batch(**kw1)
+  zz = list(zip(v, v))
+  require([np.asarray(a['i']).tolist() for a, _ in zz] == alone1 and [np.asarray(c['i']).tolist() for _, c in zz] == alone1,
+          'two interleaved iterators of one seeded view do not both reproduce its stand-alone batches', alone1,
+          [[np.asarray(a['i']).tolist(), np.asarray(c['i']).tolist()] for a, c in zz])
+  kw2s = dict(kw2, seed=case['seed1'])
+  alone2s = [np.asarray(x['i']).tolist() for x in ds2.shuffle_repeat_batch(**kw2s)]
+  it1 = iter(ds1.shuffle_repeat_batch(**kw1))
+  head = [np.asarray(next(it1)['i']).tolist()] if alone1 else []
+  mid = [np.asarray(x['i']).tolist() for x in ds2.shuffle_repeat_batch(**kw2s)]
+  rest = [np.asarray(x['i']).tolist() for x in it1]
+  require(mid == alone2s and head + rest == alone1, 'a seeded stream suspended while another stream WITH THE SAME SEED ran '
+          'does not reproduce its stand-alone batches', [alone1, alone2s], [head + rest, mid])
   nested = []
   for a in ds1.shuffle_repeat_batch(**kw1):
     nested.append(np.asarray(a['i']).tolist())
@@ -261,6 +278,9 @@ def plan(ctx):
       max_ref = 1
     sc.append({'N': n, 'B': b, 'epochs': ep, 'steps': st, 'drop': drop, 'skip': False, 'max_refills': max_ref,
                'chain': (n + b) % 2 == 0})
+  if th:
+    for n, b, ep, st, drop in configs([5], [1, 2, 3, 4, 5, 7], epochs, steps):
+      sc.append({'N': n, 'B': b, 'epochs': ep, 'steps': st, 'drop': drop, 'skip': False, 'max_refills': 1, 'chain': False})
   for n, b, ep, st, drop in configs(range(1, 9), range(1, 11), epochs, steps):
     sc.append({'N': n, 'B': b, 'epochs': ep, 'steps': st, 'drop': drop, 'skip': True})
   ctx.pmap('scripted', sc, chunk=64) if th else ctx.run('scripted', sc)
